@@ -14,6 +14,7 @@ RULE = ("every way a run can end: during the initial sampling (target met at "
         "= (status, phase in which the run ended, trigger kind); all statuses "
         "except -2 must be observed or the check is inconclusive")
 RULE += ("  Also: undefined values at the first evaluation(s) only; bounds that fix one variable at a huge value while the others have a narrow real range, huge finite boxes (status 2 only if every variable is fixed to rounding of its own magnitude); requests placed by replay ((target, feasibility_tol) = (f_k, v_k), small filters, trial points followed by a correction) judged by the status oracle; targets at / beyond the extreme barrier.")
+RULE += (" Initial radii of 1e75..1e150 (status -2 reached inside the main loop).")
 ASSUMPTIONS = [
     "ground truth from the harness spies (callback log, evaluation log) and "
     "from the final TrustRegion state seen by the _build_result tap",
